@@ -92,7 +92,52 @@ def _lap(ctx, label):
     ctx._lap = now
 
 
+def replay(ctx):
+    """bin/check C24 --replay <violation json>: re-run the saved command (stress / solve) and report again"""
+    import json
+    import shlex
+    v = json.load(open(ctx.replay_path))
+    rp = v.get("replay") or {}
+    cmd = shlex.split(str(rp.get("cmd", "")))
+    if "ops" in rp:
+        h, hlog = vlib.compile_harness("h_threads")
+        rc, out = vlib.sh([h, "poolseq"], input=rp["ops"] + "\n", timeout=60)
+        why = seq_judgement(rp["ops"].split(), out.strip())
+        ctx.case(key="replay:" + rp["ops"], nontrivial=True, kind="replay", sample=dict(ops=rp["ops"], impl=out.strip()))
+        if why:
+            ctx.violation(v["signature"], "replay reproduces: " + why, rp)
+        return True
+    if len(cmd) < 2 or cmd[1] not in ("stress", "solve"):
+        ctx.note("replay: nothing to re-run in %s" % ctx.replay_path)
+        return False
+    tsan = "tsan" in os.path.basename(cmd[0])
+    if tsan:
+        exe, log = conclib.build_tsan_small("h_threads_tsan", os.path.join(vlib.VERIF, "harness", "h_threads.cc"), ["src/common/numbers/FastRational.cc"])
+    else:
+        exe, log = vlib.compile_harness("h_threads")
+    if not exe:
+        ctx.tie_broken("harness-h_threads", log)
+        return True
+    args = []
+    for a in cmd[1:]:
+        args += sorted(__import__("glob").glob(a)) if "*" in a else [a]
+    env = dict(os.environ)
+    if tsan:
+        env.update(conclib.TSAN_ENV)
+    rc, out = vlib.sh([exe] + args, env=env, timeout=600)
+    reps = conclib.tsan_reports(out) if tsan else []
+    ctx.case(key="replay:" + " ".join(cmd), nontrivial=True, kind="replay", sample=dict(cmd=" ".join(cmd), rc=rc, reports=len(reps)))
+    bad = bool(reps) or (rc != 0) or ("MISMATCH" in out)
+    if bad:
+        ctx.violation(v["signature"], "replay reproduces: rc=%s, %d ThreadSanitizer reports, %s" % (rc, len(reps), out.strip()[-200:]), rp)
+    else:
+        ctx.note("replay does not reproduce (rc=0): schedules differ from run to run")
+    return True
+
+
 def run(ctx):
+    if getattr(ctx, "replay_path", None) and replay(ctx):
+        return
     _lap(ctx, "coq+build")
     # locked: True / False as read off the source; None when the translator did not recognise the code
     # (tie already reported broken in prepare; the implementation is still searched for a failing run)
